@@ -273,6 +273,9 @@ func (g *generator) make(k int) (what string, data []byte, claimed int64) {
 		return g.handBuilt(rng, k)
 	}
 	b := &g.bases[rng.Intn(len(g.bases))]
+	if len(b.data) > 1<<20 && rng.Intn(12) != 0 {
+		b = &g.bases[rng.Intn(6)] // the three-level 2 MB file only now and then
+	}
 	d := append([]byte{}, b.data...)
 	claimed = int64(len(d))
 	switch kind := rng.Intn(20); {
